@@ -592,7 +592,7 @@ func routeHistory(id int, rng *rand.Rand, dir string) vO {
 	pr := processed
 	mu.Unlock()
 	raw, _ := json.Marshal(vO{"machines": machines, "externals": externals})
-	return vO{"id": id, "kind": "mcrew-route", "machines": machines, "externals": externals, "processed": pr, "logs": logs, "reported": reported, "raw": string(raw)}
+	return vO{"id": id, "kind": "mcrew-route", "host": "mcrew", "machines": machines, "externals": externals, "processed": pr, "logs": logs, "reported": reported, "raw": string(raw)}
 }
 
 // ---------------------------------------------------------------- entry point
